@@ -79,4 +79,29 @@ theorem lagCore_append (lag : Nat) (ia ib lagged : List α) (za zb zab : List α
           congr 1; omega
       · rw [if_neg h1, if_neg h1, lA, if_neg h1]
 
+/-- the whole kernel (`run`): same statement including the lag-0 path and the failure paths -/
+theorem run_append {α : Type} [Num α] (tl : α) (ia ib st : List α) (r₁ r₂ : Out α)
+    (h₁ : run tl ia st = .ok r₁) (h₂ : run tl ib r₁.lagged = .ok r₂) :
+    run tl (ia ++ ib) st = .ok ⟨r₁.outflow ++ r₂.outflow, r₂.lagged⟩ := by
+  unfold run at h₁ h₂ ⊢
+  simp only at h₁ h₂ ⊢
+  by_cases h0 : (Num.toInt tl == 0) = true
+  · simp only [h0, if_true, Except.ok.injEq] at h₁ h₂ ⊢
+    subst h₁; subst h₂; rfl
+  · simp only [h0, Bool.false_eq_true, if_false] at h₁ h₂ ⊢
+    by_cases hneg : Num.toInt tl < 0
+    · simp [hneg] at h₁
+    · simp only [hneg, if_false] at h₁ h₂ ⊢
+      by_cases hs : st.length < (Num.toInt tl).toNat
+      · simp [hs] at h₁
+      · simp only [hs, Bool.false_eq_true, if_false, Except.ok.injEq] at h₁ ⊢
+        subst h₁
+        have hl : (lagCore (Num.toInt tl).toNat ia st (zeros ia.length)).lagged.length = st.length :=
+          (lagCore_lagged _ ia st _ (by omega)).1
+        rw [hl] at h₂
+        simp only [hs, Bool.false_eq_true, if_false, Except.ok.injEq] at h₂
+        subst h₂
+        obtain ⟨e1, e2⟩ := lagCore_append (Num.toInt tl).toNat ia ib st (zeros ia.length) (zeros ib.length)
+          (zeros (ia ++ ib).length) (by simp [zeros]) (by simp [zeros]) (by simp [zeros]) (by omega)
+        rw [← e1, ← e2]
 end OW.Proofs.Lag
